@@ -126,6 +126,18 @@ def run_impl(p):
     def f():
         arr = rlgen.to_values(p["a"], p["dtype"])
         r = RunLengthArray.from_array(arr)
+        h = len(p["a"]) + sum(p["a"])
+        if h % 3 == 0 and len(arr) >= 2:
+            # the same content as a DERIVED array: the concatenation of two pieces keeps a run boundary at the cut, so two
+            # neighbouring runs may hold the same value
+            cut = 1 + h % (len(arr) - 1)
+            r = np.concatenate([r[:cut], r[cut:]])
+        if h % 2 == 0:
+            # the array has been decoded before, and the caller has overwritten what decoding gave him
+            d = r.to_array()
+            if isinstance(d, np.ndarray) and d.flags.writeable and d.size:
+                d[...] = d[::-1].copy()
+                d[0] = d[-1]
         k = ix["kind"]
         if k == "int":
             return r[ix["i"]]
